@@ -591,6 +591,9 @@ def run_case(spec, gen, hist, tier):
                     check_copy(nest[1], D, i + j, SA, MA, first_stop, C, lineage=lineage + (nest[1],), inherit_f5=in_f5)
                     D.final = snap(D.s); C.child = D
                     H("copy-of-copy:%s-of-%s" % (nest[1], label))
+                    if not in_f5 and all(p_ in ("saveload", "dill") or solver == "Powell" for p_ in lineage):
+                        # the model restarted from the SECOND-generation copy (resume_twice_de / powellS_resume_twice)
+                        maybe_model(spec, requests, nest[1], D, i + j, generation=2)
         # the original must not have moved while the copy ran to the end (in-place updates - Powell's direction set,
         # DE's population rows - happen in some Steps only)
         original_unmoved("all its Steps")
@@ -857,7 +860,7 @@ def run_case(spec, gen, hist, tier):
 
 
 # ---------------------------------------------------------------- Lean correspondence: the model restarted from the restored solver's snapshot
-def maybe_model(spec, requests, path, C, i):
+def maybe_model(spec, requests, path, C, i, generation=1):
     """model S restarted from the snapshot read off the restored real solver must reproduce its continuation"""
     if not getattr(C, "history", None) or C.error:
         return
@@ -885,6 +888,8 @@ def maybe_model(spec, requests, path, C, i):
         # (the monitor compares them); the model has no re-decoration and is not asked
         return
     meta = {"spec": view(spec), "path": path, "cut": i}
+    if generation > 1:
+        meta["copy_generation"] = generation
     # --- control loop
     line, cmp = ctl_request(spec, start, C, hist)
     if line:
@@ -1442,6 +1447,9 @@ def run_shard(pid, seed, shard, ncases, tier, extra):
     replies = leandrv.run_driver(lines) if lines else []
     for (line, cmp, meta), rep in zip(requests, replies):
         hist["model:" + meta["which"]] = hist.get("model:" + meta["which"], 0) + 1
+        if meta.get("copy_generation", 1) > 1:
+            k2 = "model-restarted-from-a-copy-of-a-copy:" + meta["which"].split(":")[0]
+            hist[k2] = hist.get(k2, 0) + 1
         for key, what in cmp(rep):
             c = dict(meta); c["request"] = line[:3000]; c["model_reply"] = rep[:3000]
             c.setdefault("gen", {"seed": seed, "shard": shard, "tier": tier})
@@ -1467,7 +1475,7 @@ def main(tier, seed):
     if tier == "quick":
         nshards, per, budget = 16, 26, 44
     else:
-        nshards, per, budget = 64, 24, 170
+        nshards, per, budget = 64, 24, 150
     run = framework.run_shards("c06", "run_shard", PID, seed, nshards, per, tier, extra={"budget": budget})
 
     def search_more():
